@@ -20,7 +20,7 @@ func ParseFile(filename string) (interface{}, error) {
 	parser.RemoveErrorListeners()
 	parser.AddErrorListener(listener)
 	// Invoke the root rule 'Packet' to parse the file
-	tree := parser.Packet()
+	tree := ParseWholeInput(parser, listener)
 	if listener.HasErrors() {
 		return nil, fmt.Errorf("syntax errors found: %v", listener.Errors)
 	}
